@@ -63,6 +63,11 @@ def handle (ep : Option C03.Env) (w : Nat) (op : String) (args : List String) (g
     let ok := got.startsWith "same=1 eq=1 "
     some { model := got, spec := [if ok then got else "same=1 eq=1 … (the operation sequence must not depend on the value of a scalar of this length)"],
            tags := ["rel." ++ f, "len" ++ toString ((bitLen k1.natAbs + 63) / 64 * 64)] }
+  | "ct_scan", [f, _, cnt, _, bits] =>
+    -- many pseudo-random secret scalars of one public length: every operation log must equal the first
+    let ok := got.startsWith ("scan=" ++ cnt ++ " same=1 eq=1 ")
+    some { model := got, spec := [if ok then got else "scan=" ++ cnt ++ " same=1 eq=1 … (the operation sequence must not depend on the value of a scalar of this length)"],
+           tags := ["scan." ++ f, "bits" ++ bits] }
   | "ct_trace", f :: rest =>
     match f, rest with
     | "ep_monty", [p, k] => do
